@@ -654,6 +654,38 @@ def r5_statistics(ctx):
         ctx.check(ok, lp, "row = every column function applied to the curve",
                   "the statistics row is not built from all columns of the "
                   "current curve")
+    # the statistics file starts empty: it is opened for writing
+    # (truncated) before rows are appended, and the header is written once
+    # outside the per-curve loops
+    opens = []
+    for c in calls_in(fp_):
+        if isinstance(c.func, ast.Attribute) and c.func.attr == "open" and \
+                writes and any(isinstance(w_.func, ast.Attribute) for w_ in
+                               writes):
+            md = kwarg(c, "mode")
+            if md is None and c.args:
+                md = c.args[0]
+            mode = const_str(md) if md is not None else "r"
+            opens.append((c, norm(c.func.value), mode))
+    tsv = [o for o in opens if any(
+        isinstance(p_, ast.withitem) and norm(p_.optional_vars or p_) == "ts"
+        for p_ in _parents(o[0], fp_))] if opens else []
+    tsv_path = tsv[0][1] if tsv else None
+    same = [o for o in opens if o[1] == tsv_path]
+    if tsv_path is None:
+        raise Undecided("fit_perform: the statistics file handle `ts` is not "
+                        "opened in a with statement")
+    trunc = [o for o in same if o[2] and o[2].startswith(("w", "x"))]
+    appends = [o for o in same if o[2] and o[2].startswith("a")]
+    first = min(same, key=lambda o: o[0].lineno)
+    ctx.check(bool(trunc) and first in trunc, first[0],
+              f"{tsv_path} opened with mode '{first[2]}' first",
+              f"fit_perform never truncates {tsv_path}: it is only opened "
+              f"with mode {[o[2] for o in same]}, so a second batch run "
+              "into the same results directory appends a second header and "
+              "a second set of rows - the file no longer has one row per "
+              "curve")
+    del appends
     # fit before statistics
     fits = [c for s in lp.body for c in ast.walk(s)
             if isinstance(c, ast.Call) and call_name(c) == "fit_data"]
@@ -916,6 +948,121 @@ def r6_legacy_words(ctx):
                   f"settings")
 
 
+def _str_pred(e, key, tables):
+    """value of a test over the string `key` (None = cannot tell)"""
+    if isinstance(e, ast.BoolOp):
+        vals = [_str_pred(v, key, tables) for v in e.values]
+        if isinstance(e.op, ast.And):
+            if any(v is False for v in vals):
+                return False
+            return True if all(v is True for v in vals) else None
+        if any(v is True for v in vals):
+            return True
+        return False if all(v is False for v in vals) else None
+    if isinstance(e, ast.UnaryOp) and isinstance(e.op, ast.Not):
+        v = _str_pred(e.operand, key, tables)
+        return None if v is None else (not v)
+    if isinstance(e, ast.Call) and isinstance(e.func, ast.Attribute) and \
+            isinstance(e.func.value, ast.Name) and e.func.value.id == "key" \
+            and e.func.attr in ("startswith", "endswith") and e.args:
+        try:
+            a = literal(e.args[0])
+        except Exception:
+            return None
+        if isinstance(a, (str, tuple)):
+            return getattr(key, e.func.attr)(a)
+        return None
+    if isinstance(e, ast.Compare) and len(e.ops) == 1 and isinstance(
+            e.left, ast.Name) and e.left.id == "key":
+        op, r = e.ops[0], e.comparators[0]
+        if isinstance(op, (ast.In, ast.NotIn)):
+            coll = None
+            if isinstance(r, ast.Name) and r.id in tables:
+                coll = tables[r.id]
+            else:
+                try:
+                    coll = literal(r)
+                except Exception:
+                    coll = None
+            if coll is None:
+                return None
+            return (key in coll) == isinstance(op, ast.In)
+        if isinstance(op, (ast.Eq, ast.NotEq)):
+            c = const_str(r)
+            if c is None:
+                return None
+            return (key == c) == isinstance(op, ast.Eq)
+    return None
+
+
+def r7_own_keys_accepted(ctx):
+    """Every key the package itself writes to a profile (the interactive
+    setup, set_fit_params, the defaults) passes Profile.__setitem__ - a
+    refused key aborts the setup half-way and the answers given so far or
+    afterwards are not the stored values."""
+    pm = ctx.repo.mod("cli.profile")
+    si = pm.func("Profile.__setitem__")
+    ctx.analysed(si)
+    try:
+        dflt = literal(pm.assign("DEFAULTS"))
+    except Exception:
+        dflt = None
+    if not isinstance(dflt, dict):
+        raise Undecided("cli.profile.DEFAULTS is not a literal table")
+    tables = {"DEFAULTS": set(dflt)}
+    raises = [n for n in walk_no_nested(si, False) if isinstance(n, ast.Raise)]
+    keys = {}
+    for k in dflt:
+        keys.setdefault(k, pm.assign("DEFAULTS"))
+    from ..astutil import str_template
+    for m, q, f in ctx.repo.all_funcs():
+        if not m.name.startswith("cli."):
+            continue
+        for st in walk_no_nested(f, False):
+            if not isinstance(st, ast.Assign):
+                continue
+            for t in st.targets:
+                if isinstance(t, ast.Subscript) and norm(t.value) in (
+                        "pf", "profile", "self", "prof") and (
+                        m.name == "cli.profile"):
+                    if norm(t.value) == "self" and not q.startswith(
+                            "Profile."):
+                        continue
+                    k = const_str(t.slice)
+                    if k is None:
+                        tm = str_template(t.slice)
+                        if tm is not None:
+                            k = tm.replace("{}", "E")
+                    if k is None:
+                        if q.startswith("Profile.__getitem__"):
+                            continue     # re-stores the key it was asked for
+                        raise Undecided(f"{m.name}.{q}: profile key "
+                                        f"{norm(t.slice)[:40]} is computed")
+                    keys.setdefault(k, st)
+    ctx.floor("profile keys written by the package", len(keys), 10)
+    for k, site in sorted(keys.items()):
+        refused = None
+        for r in raises:
+            vals = []
+            for a in conditions_at(r):
+                v = _str_pred(a.node, k, tables)
+                vals.append(None if v is None else (v == a.pol))
+            if any(v is False for v in vals):
+                continue
+            if any(v is None for v in vals):
+                raise Undecided(f"Profile.__setitem__: cannot evaluate the "
+                                f"condition of `{norm(r)[:40]}` for key "
+                                f"'{k}'")
+            refused = r
+        ctx.check(refused is None, site, f"key '{k}' accepted by "
+                  "Profile.__setitem__",
+                  f"Profile.__setitem__ refuses the key '{k}' "
+                  f"(line {getattr(refused, 'lineno', '?')}) although the "
+                  "package itself writes it: the interactive setup aborts "
+                  "at that point, the profile is left half-updated and "
+                  "later answers are not stored")
+
+
 RULES = [
     ("C19-R1", "producer vocabularies are subsets of consumer vocabularies",
      r1_vocabularies),
@@ -929,4 +1076,6 @@ RULES = [
      r5_statistics),
     ("C19-R6", "legacy loader maps exactly approach/retract of `segment` and "
      "keeps every other entry as written", r6_legacy_words),
+    ("C19-R7", "every key the package writes to a profile is accepted by "
+     "Profile.__setitem__", r7_own_keys_accepted),
 ]
